@@ -182,20 +182,25 @@ Quartile4(t, which) ==      \* t sorted ascending, non-empty; which = 1 (25 %) o
         rem == num % 4
     IN IF rem = 0 THEN 4 * t[lo + 1] ELSE 4 * t[lo + 1] + rem * (t[lo + 2] - t[lo + 1])
 PosSizes(rows) == SortSeq(SelectSeq([k \in 1..Len(rows) |-> RowSize(rows[k])], LAMBDA z : z > 0), LAMBDA a, b : a < b)
-MidsizeRows(rows) ==        \* rows whose size lies in [25th, 75th percentile of the positive sizes]
+MidsizeRowsCoded(rows) ==   \* rows whose size lies in [25th, 75th percentile of the positive sizes]
     LET ps == PosSizes(rows)
         lo4 == Quartile4(ps, 1)
         hi4 == Quartile4(ps, 3)
     IN SelectSeq(rows, LAMBDA x : 4 * RowSize(x) >= lo4 /\ 4 * RowSize(x) <= hi4)
+(* fb (fallback) = FALSE is the code; fb = TRUE: when no row lies within the quartiles (finding NoMidsizeRegion) every *)
+(* row of positive size is sampled instead                                                                           *)
+MidsizeRows(rows, fb) ==
+    LET ms == MidsizeRowsCoded(rows) IN
+    IF fb /\ ms = <<>> THEN SelectSeq(rows, LAMBDA x : RowSize(x) > 0) ELSE ms
 (* samtools bedcov: per-base depth summed over the region, reads flagged unmapped / secondary / QC-fail / duplicate  *)
 (* excluded, no MAPQ cut-off (min_mapq = 0)  -- Coverage.tla's counted reads and CIGAR blocks                         *)
 BasesOf(r, x) == Cov!BasesInBin(r.reads, RowC(x), x[2], x[3], 0)
 (* "Mean read depth across all sampled regions": <<bases, area>> *)
-SampleDepth(r, rows) ==
-    LET ms == MidsizeRows(rows) IN
+SampleDepth(r, rows, fb) ==
+    LET ms == MidsizeRows(rows, fb) IN
     <<ISum([k \in 1..Len(ms) |-> BasesOf(r, ms[k])]), ISum([k \in 1..Len(ms) |-> RowSize(ms[k])])>>
-SampleFails(rows) == PosSizes(rows) = <<>> \/ MidsizeRows(rows) = <<>>       \* np.percentile of nothing / empty BED
-SampleUnmodelled(rows) == ~SampleFails(rows) /\ Len(MidsizeRows(rows)) > 100  \* `.sample(max_num, random_state)`
+SampleFails(rows, fb) == PosSizes(rows) = <<>> \/ MidsizeRows(rows, fb) = <<>>    \* np.percentile of nothing / empty BED
+SampleUnmodelled(rows, fb) == ~SampleFails(rows, fb) /\ Len(MidsizeRows(rows, fb)) > 100  \* `.sample(max_num, random_state)`
 
 (* ----- weighted median of per-chromosome rationals Ns[k] / Ds[k] with weights Ws[k]: over a common denominator      *)
 (* (values doubled so that the midpoint of two of them is an integer); result <<numerator set, denominator>>          *)
@@ -218,10 +223,10 @@ NeedsTargets(r) == r.method \in {"amplicon", "hybrid"}
 TargetsMissing(r) == NeedsTargets(r) /\ (~r.has_targets \/ r.targets = <<>>)
 TargetsOffBam(r, rows) == IsBam(r) /\ \E k \in 1..Len(rows) : RowC(rows[k]) > NC(r)  \* bedcov: unknown reference name
 (* target depth over `rows`: supplied (src = table), derived from the reads, or -- sampled subset -- the observed one *)
-TargetDepth(r, rows) ==
+TargetDepth(r, rows, fb) ==
     IF ~IsBam(r) THEN <<ZI(r.tdn), ZI(r.tdd)>>
-    ELSE IF SampleUnmodelled(rows) THEN <<ObsZ(r.out.td), AbTen12>>
-    ELSE LET sd == SampleDepth(r, rows) IN <<ZI(sd[1]), ZI(sd[2])>>
+    ELSE IF SampleUnmodelled(rows, fb) THEN <<ObsZ(r.out.td), AbTen12>>
+    ELSE LET sd == SampleDepth(r, rows, fb) IN <<ZI(sd[1]), ZI(sd[2])>>
 ErrResult == [err |-> TRUE, td |-> <<ZZero, ZOne>>, ad |-> <<ZZero, ZOne>>, anone |-> TRUE]
 WgsCoded(r, mp, rl2) ==
     LET rc == RcChroms(r, mp)
@@ -234,9 +239,9 @@ WgsCoded(r, mp, rl2) ==
         Ws == Force([k \in 1..Len(rows) |-> ZI(len(rows[k]))])
     IN IF rows = <<>> \/ rl2 = 0 \/ \E k \in 1..Len(rows) : len(rows[k]) <= 0 THEN ErrResult
        ELSE [err |-> FALSE, td |-> WMedCoded(Ns, Ds, Ws), ad |-> <<ZZero, ZOne>>, anone |-> TRUE]
-AmpliconCoded(r) ==
-    IF (IsBam(r) /\ SampleFails(r.targets)) \/ TargetsOffBam(r, r.targets) THEN ErrResult
-    ELSE [err |-> FALSE, td |-> TargetDepth(r, r.targets), ad |-> <<ZZero, ZOne>>, anone |-> TRUE]
+AmpliconCoded(r, fb) ==
+    IF (IsBam(r) /\ SampleFails(r.targets, fb)) \/ TargetsOffBam(r, r.targets) THEN ErrResult
+    ELSE [err |-> FALSE, td |-> TargetDepth(r, r.targets, fb), ad |-> <<ZZero, ZOne>>, anone |-> TRUE]
 (* hybrid(): byname = FALSE is the code (captured reads paired with chromosomes BY POSITION: i-th chromosome of the   *)
 (* targets table against the i-th remaining row of the idxstats table); byname = TRUE pairs them by chromosome        *)
 HybridParts(r, mp) ==
@@ -254,26 +259,26 @@ HybridAnti(r, mp, rl2, hp, T, byname) ==     \* T = <<Tn, Td>>; returns <<Ns, Ds
     IN <<Force([k \in 1..Len(sh) |-> ZSub(ZMul(ZI(rl2 * mp[sh[k]]), T[2]), ZMul(ZI(2 * tlen(k)), T[1]))]),
          Force([k \in 1..Len(sh) |-> ZMul(ZI(2 * alen(k)), T[2])]),
          Force([k \in 1..Len(sh) |-> ZI(alen(k))])>>
-HybridCoded(r, mp, rl2, byname) ==
+HybridCoded(r, mp, rl2, byname, fb) ==
     LET hp == HybridParts(r, mp) IN
-    IF hp.namesdisjoint \/ hp.shared = <<>> \/ rl2 = 0 \/ (IsBam(r) /\ SampleFails(hp.tg)) \/ TargetsOffBam(r, hp.tg)
+    IF hp.namesdisjoint \/ hp.shared = <<>> \/ rl2 = 0 \/ (IsBam(r) /\ SampleFails(hp.tg, fb)) \/ TargetsOffBam(r, hp.tg)
     THEN ErrResult
-    ELSE LET T == TargetDepth(r, hp.tg)
+    ELSE LET T == TargetDepth(r, hp.tg, fb)
              a == HybridAnti(r, mp, rl2, hp, T, byname)
          IN [err |-> FALSE, td |-> T, ad |-> WMedCoded(a[1], a[2], a[3]), anone |-> FALSE]
-AutobinCoded(r, byname) ==
+AutobinCoded(r, byname, fb) ==
     LET mp == MappedVec(r)
         rl2 == ReadLen2(r)
     IN IF TargetsMissing(r) THEN ErrResult
        ELSE IF r.method = "wgs" THEN WgsCoded(r, mp, rl2)
-       ELSE IF r.method = "amplicon" THEN AmpliconCoded(r)
-       ELSE HybridCoded(r, mp, rl2, byname)
+       ELSE IF r.method = "amplicon" THEN AmpliconCoded(r, fb)
+       ELSE HybridCoded(r, mp, rl2, byname, fb)
 (* bin sizes the code may return for a coded depth N / D (a float division chain: near-ties accepted both ways) *)
 SizesFor(r, q, none, mn, mx) == IF none THEN {NoneSize} ELSE CodedSizes(r.bpn, r.bpd, q[1], q[2], mn, mx, FALSE)
 (* does the recorded output agree with the coded computation? *)
 DepthAgrees(o, q, none) == IF none THEN ObsNone(o) ELSE CloseRat(o, q[1], q[2])
-AutobinAgrees(r, byname) ==
-    LET a == AutobinCoded(r, byname) IN
+AutobinAgrees(r, byname, fb) ==
+    LET a == AutobinCoded(r, byname, fb) IN
     IF a.err THEN ~NoErr(r)
     ELSE /\ NoErr(r)
          /\ DepthAgrees(r.out.td, a.td, FALSE) /\ r.out.ts \in SizesFor(r, a.td, FALSE, r.tmin, r.tmax)
@@ -385,13 +390,14 @@ Premise(r) ==
       [] OTHER -> FALSE
 
 (* ================================================================= drift ============ *)
-(* the recorded output differs from the code's arithmetic as modelled (for hybrid: from the positional pairing the   *)
-(* code performs AND from the pairing by chromosome name -- the latter so that a repair of finding                   *)
-(* HybridChromOrder does not show up as drift)                                                                      *)
+(* the recorded output differs from the code's arithmetic as modelled -- with and without the two findings repaired  *)
+(* (captured reads paired by position / by chromosome name; no / all positive-size regions sampled when none lies    *)
+(* within the quartiles), so that a repair of either does not show up as drift                                       *)
 Drift(r) ==
     CASE r.op = "binsize" -> NoErr(r) /\ BsDrift(r)
       [] r.op = "midsize" -> NoErr(r) /\ r.out # MsCoded(r.sizes)
-      [] r.op = "autobin" -> ~AutobinAgrees(r, FALSE) /\ ~AutobinAgrees(r, TRUE)
+      [] r.op = "autobin" -> /\ ~AutobinAgrees(r, FALSE, FALSE) /\ ~AutobinAgrees(r, TRUE, FALSE)
+                             /\ ~AutobinAgrees(r, FALSE, TRUE) /\ ~AutobinAgrees(r, TRUE, TRUE)
       [] OTHER -> FALSE
 
 (* ================================================================= known-finding triggers ============ *)
@@ -407,6 +413,6 @@ TriggerHolds(t, r) ==
       [] t = "NoMidsizeRegion" ->
             r.op = "autobin" /\ IsBam(r) /\ NeedsTargets(r) /\ ~TargetsMissing(r) /\
             LET rows == IF r.method = "hybrid" THEN HybridParts(r, MappedVec(r)).tg ELSE r.targets
-            IN PosSizes(rows) # <<>> /\ MidsizeRows(rows) = <<>>
+            IN PosSizes(rows) # <<>> /\ MidsizeRowsCoded(rows) = <<>>
       [] OTHER -> FALSE
 =============================================================================
